@@ -94,53 +94,36 @@ func c09a(c *Ctx) {
 		return
 	}
 	lk := "@parser." + tsName + "[$2]"
-	var okUnknown, okHas, okAppend bool
-	for _, r := range returnsOf(fn) {
-		must := c.mustLits(fn, r.Block())
-		v := c.term(fn, r.Results[0])
-		if v == "$1" && hasLit(must, "-"+lk+"#1") {
-			okUnknown = true
+	has := "strings.HasSuffix($1," + lk + "#0)"
+	// what comes back, under which conditions — compared as conditions, so that the three cases
+	// may be written as three returns, as two (the "unchanged" cases folded), or with the tests
+	// in another order
+	var unchanged, appended, other dnf
+	otherWhat := ""
+	for _, fr := range c.flatReturns(fn) {
+		if len(fr.terms) != 1 {
 			continue
 		}
-		if ph, isPhi := r.Results[0].(*ssa.Phi); isPhi {
-			for i, e := range ph.Edges {
-				pm := c.edgeMust(fn, ph.Block().Preds[i], ph.Block())
-				et := c.term(fn, e)
-				has := "strings.HasSuffix($1," + lk + "#0)"
-				if et == "$1" && hasLit(pm, "+"+has) {
-					okHas = true
-				}
-				if et == "($1 ++ "+lk+"#0)" && hasLit(pm, "-"+has) {
-					okAppend = true
-				}
-			}
+		switch fr.terms[0] {
+		case "$1":
+			unchanged = orDNF(unchanged, fr.cond)
+		case "($1 ++ " + lk + "#0)":
+			appended = orDNF(appended, fr.cond)
+		default:
+			other = orDNF(other, fr.cond)
+			otherWhat = fr.terms[0]
 		}
-	}
-	// ... and nothing else: every way out is one of the three (a shortcut for empty or short text
-	// would leave a hoisted label without terminator)
-	{
-		has := "strings.HasSuffix($1," + lk + "#0)"
-		bad := ""
-		nAlt := 0
-		for _, r := range returnsOf(fn) {
-			for _, alt := range c.resultAlts(fn, r.Results[0]) {
-				nAlt++
-				must := append(append([]string{}, alt.must...), c.mustLits(fn, r.Block())...)
-				switch {
-				case alt.term == "$1" && hasLit(must, "-"+lk+"#1"):
-				case alt.term == "$1" && hasLit(must, "+"+has):
-				case alt.term == "($1 ++ "+lk+"#0)" && hasLit(must, "-"+has) && hasLit(must, "+"+lk+"#1"):
-				default:
-					bad = "returns " + pretty(alt.term) + " under " + fmt.Sprint(prettyAll(must))
-				}
-			}
-		}
-		c.Check(bad == "" && nAlt >= 3, "formatTextTerminator/every-return", c.W.FuncPos(fn), "every return is: unchanged for unknown types, unchanged when already terminated, text + terminator otherwise", "formatTextTerminator "+bad+": besides 'unknown string type' and 'already terminated' there must be no way to return text without its terminator")
 	}
 	pos := c.W.FuncPos(fn)
+	wantUnchanged := mkDNF([]string{"-" + lk + "#1"}, []string{"+" + lk + "#1", "+" + has})
+	wantAppended := mkDNF([]string{"+" + lk + "#1", "-" + has})
+	c.Check(len(other.cs) == 0, "formatTextTerminator/every-return", pos, "every return is the text itself or the text plus its terminator", "formatTextTerminator can return "+pretty(otherWhat)+", which is neither the text nor the text with its terminator appended")
+	okUnknown := dnfImplies(mkDNF([]string{"-" + lk + "#1"}), unchanged)
+	okHas := dnfImplies(mkDNF([]string{"+" + lk + "#1", "+" + has}), unchanged)
 	c.Check(okUnknown, "formatTextTerminator/unknown-type-unchanged", pos, "string types without a table entry are returned unchanged", "text of an unknown string type is not returned unchanged")
-	c.Check(okHas, "formatTextTerminator/not-doubled", pos, "text already ending with the terminator is returned unchanged", "no path returns the text unchanged under strings.HasSuffix(text, terminator): an existing terminator could be doubled or cut")
-	c.Check(okAppend, "formatTextTerminator/appended", pos, "otherwise text + terminator", "no path returns text + terminator exactly when the text does not end with it")
+	c.Check(okHas, "formatTextTerminator/not-doubled", pos, "text already ending with the terminator is returned unchanged", "text that already ends with the terminator is not returned unchanged: an existing terminator could be doubled or cut")
+	c.Check(dnfEquiv(unchanged, wantUnchanged), "formatTextTerminator/unchanged-only-then", pos, "the text comes back unchanged only for unknown types and already terminated text", "formatTextTerminator returns the text unchanged under ["+unchanged.String()+"], expected exactly [unknown string type] or [already ends with the terminator]: otherwise a text could be left without its terminator")
+	c.Check(dnfEquiv(appended, wantAppended), "formatTextTerminator/appended", pos, "otherwise text + terminator", "text + terminator is returned under ["+appended.String()+"], expected exactly when the type is known and the text does not end with the terminator")
 }
 
 func c09b(c *Ctx) {
@@ -496,7 +479,14 @@ func c09d(c *Ctx) {
 			if x, ok := unExtract(r.Results[1]).(*ssa.Lookup); ok {
 				lt = x
 			}
-			same := lv != nil && lt != nil && lv.Index == lt.Index && kv != "" && kv == kt
+			sameIdx := lv != nil && lt != nil && lv.Index == lt.Index
+			if lv != nil && lt != nil && !sameIdx {
+				// two occurrences of the same constant key
+				a, okA := strConst(lv.Index)
+				b, okB := strConst(lt.Index)
+				sameIdx = okA && okB && a == b
+			}
+			same := sameIdx && kv != "" && kv == kt
 			c.Check(same, "text-poryswitch/parallel-maps", c.W.Pos(r.Pos()), "text and string type are read under the same key on every path", fmt.Sprintf("the text is read under key %s but the string type under key %s", pretty(kv), pretty(kt)))
 			continue
 		}
